@@ -9,6 +9,10 @@
      obtained by cutting the stream at line feeds.  Parse is a token-level transcription of the
      matcher regexp  ^E?(.+?)E*:E*(\d+)E*:E*(\d+)E*: E*(.+?)E* \[(KIND)\]$  on colour-free lines:
      lazy groups = smallest index for which the rest of the pattern still matches.
+     The message atom "pc" stands for text that a formatting layer between the message and the
+     output could interpret (%, %%, %s, %d, %v, %!, %[1]s, {{, }}, \, \n as two characters, $1,
+     %0A, ::): to the renderers and to the matcher it is ordinary text, so it has no role below;
+     the harness instantiates it with each of these strings.
      KindPat selects the pattern of the last group: "lazy" (.+? - shipped), "norb" ([^\]]+) and
      "nobr" ([^\[\]]+ - proposed repair).
      Checked by TLC for every list of <= MaxDiags diagnostics with messages of <= MaxAtoms atoms:
